@@ -19,7 +19,26 @@ Mapping of Python outcomes to protocol answers (documented here as CODEC_PROTOCO
   three representation errors it was; the engine accepts it for any of them)
 * consumed size is not reported by the Python API                 -> ``?``
 * any other exception                                             -> ``err:exception:<class name>``
+
+Input spellings (round 2).  The generated API accepts the same abstract input in several spellings; every request is
+answered for the *primary* spelling (compared with the model by the engine) and, in the same breath, for a few
+*alternative* spellings of the same input chosen by a CRC of the request line (so that a replay of the line picks the same
+ones).  All of them must give the primary's answer; the first that does not is reported as
+``err:spelling:<name>:<its answer>`` (the engine turns that into a failing input of kind ``<op>:input-spelling``).
+* serialized representation handed to ``deserialize`` (``de``, decoding step of ``rt``): primary = one writeable
+  memoryview; alternatives = FRAGMENT_SPELLINGS (no fragment at all for the empty string, read-only / bytes / bytearray /
+  ndarray fragments, tuple instead of list, two and many fragments, empty fragments first / in the middle / last, one
+  fragment per byte, the fragments exactly as ``serialize`` returned them);
+* primitive-array fields handed to the constructor (``ser``, ``rt``): primary = list (target ``py``) or ndarray of the
+  exact dtype (``+ndarray``); alternatives = ARRAY_SPELLINGS (tuple, exact, non-native byte order, strided and
+  negative-stride views, read-only, wider / narrower dtype of the same kind, unaligned memory, 2-d, object dtype,
+  bytes / bytearray / memoryview for uint8-like elements);
+* ``rt2``: the object is REUSED: built from the first value, then every field re-assigned through the generated
+  setters from the second value (for a union: the option of the second value is selected) before serializing;
+* ``serialize`` must return at least one fragment, each a one-dimensional memoryview of unsigned bytes.
+``stats`` answers a JSON object with the number of times each spelling was exercised.
 """
+import collections
 import importlib
 import json
 import math
@@ -27,6 +46,7 @@ import os
 import struct
 import sys
 import warnings
+import zlib
 
 warnings.simplefilter("ignore")
 
@@ -76,25 +96,126 @@ _FMAX = {16: 65504.0, 32: 3.4028234663852886e38, 64: 1.7976931348623157e308}
 
 
 NDARRAY = os.environ.get("CODEC_PY_NDARRAY") == "1"
+N_ALT_ARRAY = int(os.environ.get("CODEC_PY_ALT_ARRAY", "2"))        # alternative array spellings tried per ser / rt request
+N_ALT_FRAG = int(os.environ.get("CODEC_PY_ALT_FRAG", "3"))          # alternative fragment spellings per de / rt request
+STATS = collections.Counter()
+
+PRIMARY_ARRAY = "exact" if NDARRAY else "list"
+ARRAY_SPELLINGS = ["list", "tuple", "exact", "swapped", "strided", "negstride", "readonly", "wider", "narrower", "unaligned", "2d",
+                   "object", "bytes", "bytearray", "memoryview"]
+_SPELL = {"array": PRIMARY_ARRAY, "applied": 0}       # the spelling build() uses for primitive arrays right now
 
 
-def _as_ndarray(el, out):
-    """CODEC_PY_NDARRAY=1: primitive arrays reach the generated setter as ndarrays of exactly the field's dtype (the
-    setters' zero-copy fast path), not as lists (their copying slow path)."""
-    k = el["k"]
-    if k == "u":
-        return np.array(out, dtype=getattr(np, "uint%d" % _storage_bits(el["n"])))
-    if k == "i":
-        return np.array(out, dtype=getattr(np, "int%d" % _storage_bits(el["n"])))
-    if k == "b":
-        return np.array(out, dtype=np.bool_)
-    if k == "f":
-        return np.array(out, dtype=getattr(np, "float%d" % el["n"]))
-    return out
+class _Inapplicable(Exception):
+    pass
 
 
 def _storage_bits(n):
     return 8 if n <= 8 else 16 if n <= 16 else 32 if n <= 32 else 64
+
+
+def _exact_dtype(el):
+    k = el["k"]
+    if k == "u":
+        return np.dtype("uint%d" % _storage_bits(el["n"]))
+    if k == "i":
+        return np.dtype("int%d" % _storage_bits(el["n"]))
+    if k == "b":
+        return np.dtype(np.bool_)
+    if k == "f":
+        return np.dtype("float%d" % el["n"])
+    return None
+
+
+def _as_ndarray(el, out):
+    """Primitive arrays as ndarrays of exactly the field's dtype (the setters' zero-copy fast path)."""
+    dt = _exact_dtype(el)
+    return out if dt is None else np.array(out, dtype=dt)
+
+
+def _fits(dt, out):
+    if dt.kind == "f":
+        try:
+            return all(x != x or float(np.array([x], dtype=dt)[0]) == x for x in out)
+        except OverflowError:
+            return False
+    info = np.iinfo(dt)
+    return all(info.min <= int(x) <= info.max for x in out)
+
+
+def spell_array(el, out, spelling):
+    """The list `out` of element values in the named spelling; _Inapplicable when it does not exist for this array."""
+    if spelling == "list":
+        return out
+    if spelling == "tuple":
+        return tuple(out)
+    dt = _exact_dtype(el)
+    if dt is None:
+        raise _Inapplicable()
+    n = len(out)
+    if spelling == "exact":
+        return np.array(out, dtype=dt)
+    if spelling == "swapped":               # same values, non-native byte order
+        if dt.itemsize == 1:
+            raise _Inapplicable()
+        return np.array(out, dtype=dt).astype(dt.newbyteorder())
+    if spelling == "strided":               # every other element of a larger array; junk in between
+        big = np.empty(2 * n, dtype=dt)
+        big.view(np.uint8)[:] = 0xA5
+        big[::2] = np.array(out, dtype=dt)
+        return big[::2]
+    if spelling == "negstride":
+        return np.array(out[::-1], dtype=dt)[::-1]
+    if spelling == "readonly":
+        a = np.array(out, dtype=dt)
+        a.flags.writeable = False
+        return a
+    if spelling == "wider":
+        if dt.kind == "b":
+            return np.array([1 if x else 0 for x in out], dtype=np.uint8)
+        if dt.itemsize == 8:
+            if dt.kind == "u" and _fits(np.dtype(np.int64), out):
+                return np.array(out, dtype=np.int64)
+            raise _Inapplicable()
+        return np.array(out, dtype=np.dtype("%s%d" % (dt.kind, dt.itemsize * 2)))
+    if spelling == "narrower":
+        if dt.kind == "b" or dt.itemsize == 1 or (dt.kind == "f" and dt.itemsize == 2):
+            raise _Inapplicable()
+        small = np.dtype("%s%d" % (dt.kind, dt.itemsize // 2))
+        if not _fits(small, out):
+            raise _Inapplicable()
+        return np.array(out, dtype=small)
+    if spelling == "unaligned":             # exact dtype, data pointer off by one byte
+        raw = bytearray(1 + n * dt.itemsize)
+        a = np.frombuffer(raw, dtype=dt, count=n, offset=1)
+        a[:] = np.array(out, dtype=dt)
+        return a
+    if spelling == "2d":
+        return np.array(out, dtype=dt).reshape(1, n)
+    if spelling == "object":
+        a = np.empty(n, dtype=object)
+        for i, x in enumerate(out):
+            a[i] = x
+        return a
+    if spelling in ("bytes", "bytearray", "memoryview"):
+        if el["k"] != "u" or el["n"] > 8:
+            raise _Inapplicable()
+        b = bytes(out)
+        return b if spelling == "bytes" else bytearray(b) if spelling == "bytearray" else memoryview(b)
+    raise _Inapplicable()
+
+
+def _array(el, out):
+    """What build() hands to the generated setter for a primitive array under the current spelling."""
+    sp = _SPELL["array"]
+    if sp != PRIMARY_ARRAY:
+        try:
+            r = spell_array(el, out, sp)
+            _SPELL["applied"] += 1
+            return r
+        except _Inapplicable:
+            pass
+    return _as_ndarray(el, out) if NDARRAY else out
 
 
 def build(node, toks, pos, in_array=False):
@@ -135,7 +256,7 @@ def build(node, toks, pos, in_array=False):
         pos += 1
         if k == "l" and len(out) > node["cap"]:
             raise BadLength(out)
-        return (_as_ndarray(node["el"], out) if NDARRAY else out), pos
+        return _array(node["el"], out), pos
     if k == "s":
         assert toks[pos] == "{"
         pos += 1
@@ -166,7 +287,7 @@ def build_unchecked(node, toks, pos, in_array=False):
         while toks[pos] != "]":
             x, pos = build_unchecked(node["el"], toks, pos, in_array=True)
             out.append(x)
-        return (_as_ndarray(node["el"], out) if NDARRAY else out), pos + 1
+        return _array(node["el"], out), pos + 1
     if k == "s":
         pos += 1
         kw = {}
@@ -251,54 +372,221 @@ def join(out):
     return s
 
 
-def do_ser(t, text):
-    toks = tokens(text)
-    bad_len = has_bad_length(t["node"], toks)
+class Contract(Exception):
+    """The generated API broke a promise of its own documentation."""
+
+
+def _serialize(obj):
+    """nunavut_support.serialize -> (bytes, fragments as returned); the documented shape of the result is checked."""
+    frs = list(nunavut_support.serialize(obj))
+    if not frs:
+        raise Contract("serialize() returned no fragment")
+    for f in frs:
+        if not isinstance(f, memoryview) or f.ndim != 1 or f.itemsize != 1 or f.format not in ("B", "<B", "@B", "=B"):
+            raise Contract("serialize() fragment is not a flat memoryview of unsigned bytes: %r" % (f,))
+    return b"".join(bytes(f) for f in frs), frs
+
+
+def build_object(t, toks, pos=0):
+    """Protocol value -> generated object, over-long arrays left to the generated setter.  -> (object, new position)"""
+    bad_len = has_bad_length(t["node"], toks[pos:])
     try:
         # no length check of our own here: an over-long array must be refused by the generated setter (ValueError)
-        obj = build_unchecked(t["node"], toks, 0)[0]
+        return build_unchecked(t["node"], toks, pos)
     except ValueError:
         if bad_len:
             raise BadLength()
         raise
-    data = b"".join(bytes(f) for f in nunavut_support.serialize(obj))
-    return data
 
 
-def handle(types, line):
-    op, idx, rest = (line.split(" ", 2) + ["", ""])[:3]
-    t = types[int(idx)]
-    cls = get_cls(t["cls"])
+def do_ser(t, text):
+    return _serialize(build_object(t, tokens(text))[0])[0]
+
+
+def _guard(fn):
+    """Run fn() -> answer text, mapping the outcomes as documented at the top."""
     try:
-        if op == "ser":
-            data = do_ser(t, rest)
-            return "ok " + (data.hex() or "-")
-        if op == "serbuf":
-            return "n/a"
-        if op == "de":
-            data = b"" if rest == "-" else bytes.fromhex(rest)
-            obj = nunavut_support.deserialize(cls, [memoryview(bytearray(data))])
-            if obj is None:
-                return "err:invalid"
-            out = []
-            dump(t["node"], obj, out)
-            return "ok " + join(out) + " ?"
-        if op == "rt":
-            data = do_ser(t, rest)
-            obj = nunavut_support.deserialize(cls, [memoryview(bytearray(data))])
-            if obj is None:
-                return "ok " + (data.hex() or "-") + " err:invalid"
-            out = []
-            dump(t["node"], obj, out)
-            data2 = b"".join(bytes(f) for f in nunavut_support.serialize(obj))
-            return "ok " + (data.hex() or "-") + " " + join(out) + " ? " + (data2.hex() or "-")
-        return "err:bad-op"
+        return fn()
     except NotApplicable:
         return "n/a"
     except BadLength:
         return "err:bad-array-length"
     except Exception as ex:  # noqa
         return "err:exception:" + type(ex).__name__ + ":" + str(ex)[:120].replace("\n", " ")
+
+
+def _with_array_spelling(name, fn):
+    """fn() with primitive arrays built in spelling `name`; None when the spelling applied to no array of the value."""
+    _SPELL["array"], _SPELL["applied"] = name, 0
+    try:
+        a = _guard(fn)
+        return a if _SPELL["applied"] else None
+    finally:
+        _SPELL["array"] = PRIMARY_ARRAY
+
+
+def _has_prim_array(node):
+    k = node["k"]
+    if k in "al":
+        return True          # list / tuple apply to arrays of composites as well
+    if k in "sn":
+        return any(_has_prim_array(fn) for _, fn in node["fields"])
+    return False
+
+
+def array_alternatives(t, salt, primary, fn):
+    """Answers of fn() under N_ALT_ARRAY other array spellings; -> None or 'err:spelling:…' for the first that differs."""
+    if N_ALT_ARRAY <= 0 or primary == "n/a":
+        return None
+    if "_arr" not in t:
+        t["_arr"] = _has_prim_array(t["node"])
+    if not t["_arr"]:
+        return None
+    names = [n for n in ARRAY_SPELLINGS if n != PRIMARY_ARRAY]
+    for j in range(N_ALT_ARRAY):
+        name = names[(salt + j) % len(names)]
+        a = _with_array_spelling(name, fn)
+        if a is None:
+            STATS["array-inapplicable:" + name] += 1
+            continue
+        STATS["array:" + name] += 1
+        if a != primary:
+            return "err:spelling:array=%s:%s" % (name, a[:600])
+    return None
+
+
+# ---- the serialized representation in several spellings -----------------------------------------------------------
+
+def _cuts(data, salt, k):
+    n = len(data)
+    pts = sorted((salt * 2654435761 + i * 40503) % (n + 1) for i in range(k))     # k cut points -> k + 1 pieces, some possibly empty
+    out, last = [], 0
+    for c in pts + [n]:
+        out.append(data[last:c])
+        last = c
+    return out
+
+
+FRAGMENT_SPELLINGS = {
+    "no-fragments": lambda d, s: [] if not d else None,
+    "no-fragments-tuple": lambda d, s: () if not d else None,
+    "readonly": lambda d, s: [memoryview(bytes(d))],
+    "bytes-object": lambda d, s: [bytes(d)],
+    "bytearray-object": lambda d, s: [bytearray(d)],
+    "ndarray": lambda d, s: [np.frombuffer(bytearray(d), dtype=np.uint8)],
+    "ndarray-memoryview": lambda d, s: [memoryview(np.frombuffer(bytearray(d), dtype=np.uint8))],
+    "tuple": lambda d, s: (memoryview(bytearray(d)),),
+    "two": lambda d, s: [memoryview(bytearray(x)) for x in _cuts(d, s, 1)],
+    "two-readonly-tuple": lambda d, s: tuple(memoryview(bytes(x)) for x in _cuts(d, s + 1, 1)),
+    "many": lambda d, s: [memoryview(bytearray(x)) for x in _cuts(d, s, 4)],
+    "empty-first": lambda d, s: [memoryview(bytearray()), memoryview(bytearray(d))],
+    "empty-last": lambda d, s: [memoryview(bytearray(d)), memoryview(b"")],
+    "empty-middle": lambda d, s: [memoryview(bytearray(x)) for x in (_cuts(d, s, 1)[0], b"", b"", _cuts(d, s, 1)[1])],
+    "only-empties": lambda d, s: [memoryview(b""), memoryview(bytearray())] if not d else None,
+    "bytewise": lambda d, s: [memoryview(bytearray(d[i:i + 1])) for i in range(len(d))] if 0 < len(d) <= 64 else None,
+    "mixed-kinds": lambda d, s: [memoryview(bytes(_cuts(d, s, 2)[0])), bytearray(_cuts(d, s, 2)[1]), np.frombuffer(bytes(_cuts(d, s, 2)[2]), dtype=np.uint8)],
+}
+_FRAG_NAMES = sorted(FRAGMENT_SPELLINGS)
+_FRAG_EMPTY = [n for n in _FRAG_NAMES if n in ("no-fragments", "no-fragments-tuple", "only-empties", "readonly", "ndarray", "empty-first")]
+
+
+def _decode(t, cls, fragments):
+    obj = nunavut_support.deserialize(cls, fragments)
+    if obj is None:
+        return None, "err:invalid"
+    out = []
+    dump(t["node"], obj, out)
+    return obj, "ok " + join(out) + " ?"
+
+
+def decode_all_spellings(t, cls, data, salt, extra=()):
+    """-> (object or None, answer) of the primary spelling, or (None, 'err:spelling:…') when an alternative differs."""
+    obj, primary = _decode(t, cls, [memoryview(bytearray(data))])
+    STATS["frag:primary"] += 1
+    if N_ALT_FRAG <= 0:
+        return obj, primary
+    if not data:
+        names = _FRAG_EMPTY
+    else:
+        names = [_FRAG_NAMES[(salt + j) % len(_FRAG_NAMES)] for j in range(min(N_ALT_FRAG, len(_FRAG_NAMES)))]
+    alts = [(n, FRAGMENT_SPELLINGS[n](data, salt)) for n in names] + list(extra)
+    for name, frs in alts:
+        if frs is None:
+            continue
+        STATS["frag:" + name] += 1
+        a = _guard(lambda: _decode(t, cls, frs)[1])
+        if a != primary:
+            return None, "err:spelling:fragments=%s:%s" % (name, a[:600])
+    return obj, primary
+
+
+def reassign(t, dst, src):
+    """Every field of the generated object dst re-assigned through the setters from src (union: src's option selected)."""
+    node = t["node"]
+    if node["k"] == "n":
+        for name, _ in node["fields"]:
+            v = getattr(src, name)
+            if v is not None:
+                setattr(dst, name, v)
+    else:
+        for name, _ in node["fields"]:
+            if name is not None:
+                setattr(dst, name, getattr(src, name))
+    return dst
+
+
+def handle(types, line):
+    op, idx, rest = (line.split(" ", 2) + ["", ""])[:3]
+    t = types[int(idx)]
+    cls = get_cls(t["cls"])
+    salt = zlib.crc32(line.encode())
+
+    def ser_answer():
+        return "ok " + (do_ser(t, rest).hex() or "-")
+
+    def rt_tail(data, frs):
+        """' <dump> ? <hex2>' or ' err:…' of the decoding half of a round trip."""
+        obj, a = decode_all_spellings(t, cls, data, salt, extra=[("as-returned-by-serialize", frs)])
+        if a.startswith("err:spelling:"):
+            return None, a
+        if obj is None:
+            return None, "ok " + (data.hex() or "-") + " err:invalid"
+        data2 = _serialize(obj)[0]
+        return obj, "ok " + (data.hex() or "-") + " " + a[3:] + " " + (data2.hex() or "-")
+
+    def run():
+        if op == "ser":
+            a = _guard(ser_answer)
+            return array_alternatives(t, salt, a, ser_answer) or a
+        if op == "serbuf":
+            return "n/a"
+        if op == "de":
+            data = b"" if rest == "-" else bytes.fromhex(rest)
+            return decode_all_spellings(t, cls, data, salt)[1]
+        if op == "de2":
+            first, _, second = rest.partition(" ")
+            _guard(lambda: nunavut_support.deserialize(cls, [memoryview(bytearray(b"" if first == "-" else bytes.fromhex(first)))]))
+            data = b"" if second == "-" else bytes.fromhex(second)
+            return decode_all_spellings(t, cls, data, salt)[1]
+        if op == "rt":
+            data, frs = _serialize(build_object(t, tokens(rest))[0])
+            alt = array_alternatives(t, salt, "ok " + (data.hex() or "-"), ser_answer)
+            return alt or rt_tail(data, frs)[1]
+        if op == "rt2":
+            toks = tokens(rest)
+            bar = toks.index("|")
+            try:
+                old = build_object(t, toks[:bar])[0]
+                _serialize(old)
+            except Exception:    # noqa - the first value only provides prior state; if it cannot be built the object is fresh
+                old = None
+            new = build_object(t, toks[bar + 1:])[0]
+            obj = new if old is None else reassign(t, old, new)
+            STATS["rt2:reused" if old is not None else "rt2:fresh"] += 1
+            data, frs = _serialize(obj)
+            return rt_tail(data, frs)[1]
+        return "err:bad-op"
+    return _guard(run)
 
 
 def probe(types):
@@ -337,6 +625,8 @@ def main():
         line = line.rstrip("\n")
         if line == "probe":
             sys.stdout.write(json.dumps(probe(types)) + "\n")
+        elif line == "stats":
+            sys.stdout.write(json.dumps(STATS) + "\n")
         else:
             sys.stdout.write(handle(types, line) + "\n")
         sys.stdout.flush()
